@@ -21,7 +21,7 @@ CHECKS = {
  "C20": ("exploration", "runtime monitor: value round trips across the hand-optimised codec and the generic protobuf runtime in both directions, framing through util.NewProtoStream with fragmenting readers, aliasing monitor (read buffers poisoned after each RecvMsg), panic capture and allocation accounting (runtime.MemStats) on arbitrary inputs; Go native fuzz targets as an extra workload generator",
          "Generated and mutated Stat/Packet values, packet sequences read back under 60 fragmentations incl. 1-byte reads, empty and >32 KiB packets, cut streams, arbitrary byte strings and frame streams (incl. a 4 GiB announcement in a memory-limited sub-process). Held on the executions observed; known finding: invalid UTF-8 names are rejected by the generic runtime.",
          "Trusts the independent field-wise comparator and reference framer in internal/codec; allocation measured single-threaded per child with repeat-and-minimum to damp GC noise.", "DESIGN.md §5 C20"),
- "C08": ("exploration", "Go race detector (halt_on_error) + overlap detector inside the harness stream (in-flight counters with seeded dwell) + outcome comparison across schedules of the same case",
+ "C08": ("exploration", "Go race detector (halt_on_error) + overlap detector inside the harness stream (in-flight counters with seeded dwell) + outcome comparison across schedules of the same case; the quick workloads of the other transfer checks (fault plans, metadata-only, histories, copy, tar) repeated under the race detector",
          "Each fixed (source of 100-400 multi-chunk files, prior destination) case is run under schedules drawn from stream capacity x per-operation delays in stream calls, source reads and callbacks x GOMAXPROCS; outcomes (dest, REQ set, notifications with digests) must equal the reference schedule's up to the hard-link exception; any race report or overlapping SendMsg/RecvMsg on one endpoint is a violation. Held on the schedules observed (distinct interleaving fingerprints are counted).",
          "Only interleavings the Go runtime produced in the run; the race detector sees executed paths only; harness code is itself race-free (it runs under the same detector).", "DESIGN.md §5 C08"),
  "C03": ("exploration", "runtime monitor in a chroot jail: hostile packet scripts sent over real pipes to a receiver process; before/after snapshot (inode, mode, owner, mtime, ctime, bytes, xattrs) of everything outside dest; independent stream specification decides which scripts are malformed and which entries must not have been applied",
